@@ -57,20 +57,32 @@ def variant(tag, k, n):
         return {"rulesets": [rs("r2", acts=A("1")), rs("r1", dets=[["dg", {"name": "no_such_plugin", "args": {}}]])], "prekill_hooks": [H("1", "/")]}
     if k == 7:  # one file, two rulesets aimed at the same base ruleset
         return {"rulesets": [rs("r1", acts=A("1")), rs("r1", acts=A("2"))]}
+    # 8-10: accepted by compileDropIn, refused by Engine::addDropInConfig (target r3 is known to the adaptor's root only),
+    # after zero, one or two rulesets of the same file were already attached
+    if k == 8:
+        return {"rulesets": [rs("r1", acts=A("1")), rs("r3", acts=A("2"))]}
+    if k == 9:
+        return {"rulesets": [rs("r2", dets=D("1")), rs("r1", dets=D("2"), acts=A("2")), rs("r3", dets=D("3"))], "prekill_hooks": [H("1", "/")]}
+    if k == 10:
+        return {"rulesets": [rs("r3", acts=A("1")), rs("r1", acts=A("2"))]}
     raise ValueError(k)
 
 
 NVAR = 8
+NVAR_GHOST = 11
+GHOST = {"name": "r3", "drop-in": {"detectors": True, "actions": True}, "detectors": [["g", W.det("b3.d1")]], "actions": [W.act("b3.a1")]}
 
 
 class Model:
-    def __init__(self, base):
+    def __init__(self, base, ghost=False):
         self.base = base
+        self.ghost = ghost  # the adaptor's root knows ruleset r3, the engine does not
         self.rs = {r["name"]: r for r in base["rulesets"]}
         self.order = [r["name"] for r in base["rulesets"]]
         self.dropins = {n: [] for n in self.order}  # newest first: (tag, det ids, act ids)
         self.hooks = []  # newest first: (tag, [(id, pats)])
         self.base_hooks = [(h["args"]["id"], h["args"]["cgroup"]) for h in base.get("prekill_hooks", [])]
+        self.engine_refused = 0
 
     def ids(self, r):
         return [d["args"]["id"] for g in r.get("detectors", []) for d in g[1:]], [a["args"]["id"] for a in r.get("actions", [])]
@@ -78,6 +90,8 @@ class Model:
     def compile_ok(self, cfg):
         for r in cfg.get("rulesets", []):
             b = self.rs.get(r.get("name"))
+            if b is None and r.get("name") == "r3" and self.ghost:
+                b = GHOST
             if b is None:
                 return False
             for g in r.get("detectors", []):
@@ -99,6 +113,11 @@ class Model:
         if not self.compile_ok(cfg):
             return False  # refused on the scheduling side: nothing queued, engine untouched
         self.remove(tag)
+        if any(r["name"] not in self.rs for r in cfg.get("rulesets", [])):
+            # queued, then refused by the engine as a whole: what the tag had before is gone (the adaptor removes the tag
+            # before it adds), nothing of the new content stays
+            self.engine_refused += 1
+            return True
         for r in cfg.get("rulesets", []):
             b = self.rs[r["name"]]
             bd, ba = self.ids(b)
@@ -191,8 +210,32 @@ def sequences(seed, tier):
                 if quick and rng.random() > 0.35:
                     continue
                 out.append([seq[0] + ((True,) if d0 else ()), seq[1] + ((True,) if d1 else ()), seq[2]])
+    # engine-level refusals (variants 8-10 need the adaptor root with r3): all short sequences + random ones
+    alg = [("add", t, k) for t in ("a", "b") for k in (0, 1, 3, 7, 8, 9, 10)] + [("remove", "a"), ("remove", "b")]
+    for L in range(1, (2 if quick else 3) + 1):
+        for seq in itertools.product(alg, repeat=L):
+            if any(o[0] == "add" and o[2] >= 8 for o in seq):
+                out.append(list(seq))
+    alg3 = [("add", t, k) for t in ("a", "b", "c") for k in range(NVAR_GHOST)] + [("remove", t) for t in ("a", "b", "c")]
+    for _ in range(150 if quick else 3000):
+        seq = [rng.choice(alg3) for _ in range(rng.randint(3, 6 if quick else 10))]
+        seq[rng.randrange(len(seq))] = ("add", rng.choice("abc"), rng.choice([8, 9, 10]))
+        if rng.random() < 0.5:
+            seq = [(o + (True,)) if rng.random() < 0.5 else o for o in seq]
+        out.append(seq)
     perms = list(itertools.product([True, False], repeat=6))
     return [(seq, perms[(i * 7 + 3) % 64] if i % 3 else (True, True, i % 2 == 0, False, True, i % 4 == 0)) for i, seq in enumerate(out)]
+
+
+def is_ghost(seq):
+    return any(o[0] == "add" and o[2] >= 8 for o in seq)
+
+
+def mkq(base, ops, seq):
+    q = {"q": "dropin_seq", "base": json.dumps(base), "ops": [{k: val for k, val in o.items() if k != "_cfg"} for o in ops], "probes": PROBES}
+    if is_ghost(seq):
+        q["adaptor_base"] = json.dumps(dict(base, rulesets=base["rulesets"] + [GHOST]))
+    return q
 
 
 def cases(seed, tier):
@@ -214,7 +257,7 @@ def judge(case, results):
     for seq, perm in seqs:
         base = base_config(perm)
         ops = build_ops(seq)
-        qs.append({"q": "dropin_seq", "base": json.dumps(base), "ops": [{k: val for k, val in o.items() if k != "_cfg"} for o in ops], "probes": PROBES})
+        qs.append(mkq(base, ops, seq))
         metas.append((seq, perm, base, ops, False))
         # metamorphic partner: sequence + remove(T) vs sequence without T's ops
         tags = sorted(set(o[1] for o in seq))
@@ -226,7 +269,7 @@ def judge(case, results):
             if ops2 and ops2[-1].get("defer"):
                 ops2[-1] = {k_: v_ for k_, v_ in ops2[-1].items() if k_ != "defer"}
             for ops_ in (ops1, ops2):
-                qs.append({"q": "dropin_seq", "base": json.dumps(base), "ops": [{k: val for k, val in o.items() if k != "_cfg"} for o in ops_], "probes": PROBES})
+                qs.append(mkq(base, ops_, seq))
                 metas.append((seq, perm, base, ops_, True))
     ans = pure.run_queries(qs)
     multi = 0
@@ -242,7 +285,7 @@ def judge(case, results):
             continue
         if not meta_only:
             nseq += 1
-            m = Model(base)
+            m = Model(base, ghost=is_ghost(seq))
             steps = a["steps"]
             base_insts = {x.split("#")[0].split(":")[1]: x.split("#")[1] for x in steps[0]["tick"]}
             prev = steps[0]
@@ -294,6 +337,7 @@ def judge(case, results):
                     multi += 1
                 prev = st
                 pending_deferred = False
+            v.count("adds_refused_by_engine", m.engine_refused)
             i += 1
         else:
             a2, crash2 = ans[i + 1]
